@@ -773,22 +773,15 @@ def part_from_matchfile(
             part.add(prev_measure, None, prev_end_in_divs)
         prev_measure = score.Measure(number=measure_counter + 1, name=str(measure_name))
         part.add(prev_measure, barline_in_divs)
+        # (the signature in force is looked up half a division into the
+        # measure: the barline itself may lie an ulp before the change point)
+        inside_measure = barline_in_quarters + 0.5 / divs
         prev_notated_end_in_divs = barline_in_divs + int(
             round(
-                divs
-                * beats_map(barline_in_quarters)
-                * 4
-                / beat_type_map(barline_in_quarters)
+                divs * beats_map(inside_measure) * 4 / beat_type_map(inside_measure)
             )
         )
-    last_closing_barline = barline_in_divs + int(
-        round(
-            divs
-            * beats_map(barline_in_quarters)
-            * 4
-            / beat_type_map(barline_in_quarters)
-        )
-    )
+    last_closing_barline = prev_notated_end_in_divs
     part.add(prev_measure, None, last_closing_barline)
 
     # add the rest of the measures automatically
